@@ -60,7 +60,7 @@ class ChainSo(BaseClient):
         for address in addresslist:
             res = self.compose_request('get_address_balance', address)
             balance += float(res['data']['confirmed_balance']) + float(res['data']['unconfirmed_balance'])
-        return int(balance * self.units)
+        return int(round(balance * self.units))
 
     def getutxos(self, address, after_txid='', limit=MAX_TRANSACTIONS):
         txs = []
